@@ -357,6 +357,48 @@ class C04:
                         f"(specification: a clip never starts after it ends; equal times are valid)", s.node.lineno,
                         witness={"start_rank": o["start"], "end_rank": o["end"], "code": "reject" if rej else "accept"})
 
+    def check_raw_comparisons(self):
+        """R04.6 package-wide: a before-mode validator of any data model sees the raw input (strings not yet coerced, keys
+        possibly missing); an ORDER comparison or arithmetic on its items decides on other values than the instance will hold.
+        Identity / membership tests (`is None`, `in`) are unaffected by coercion and pass."""
+        ctx, m = self.ctx, self.ctx.models
+        n = 0
+        for ci in m.all_models():
+            if not ci.module.name.startswith(DATA + "."):
+                continue
+            for v in m.validators(ci, inherited=False):
+                if v.mode != "before" or (ci.name == "Clip" and v.name == "_validate_times"):
+                    continue
+                try:
+                    s = ctx.summ.of_node(ci.module, v.node, f"{ci.qual}.{v.name}", ci)
+                except Exception:  # noqa: BLE001
+                    continue
+                raw = {("param", p_) for p_ in s.params[1:]} if s.params and s.params[0] in ("cls", "self") else {("param", p_) for p_ in s.params}
+                n += 1
+
+                def rooted(t):
+                    while isinstance(t, tuple) and t and t[0] in ("sub", "attr"):
+                        t = t[1]
+                    if isinstance(t, tuple) and t and t[0] == "call" and t[1][0] == "attr" and t[1][2] == "get":
+                        return rooted(t[1][1])
+                    return t in raw
+
+                hit = None
+                for e in s.events:
+                    for t in (e.live, e.term):
+                        for x in walk(t):
+                            if x[0] == "cmp" and x[1] in ("lt", "le", "gt", "ge") and (rooted(x[2]) or rooted(x[3])):
+                                hit = hit or (x, e)
+                if hit:
+                    x, e = hit
+                    ctx.bad("R04.6", ci.module.relpath, f"{ci.name}.{v.name}", f"mode='before': {show(x)[:60]}",
+                            f"{ci.name}.{v.name} runs in before mode and orders raw input items (`{show(x)[:80]}`): numeric strings, which "
+                            f"pydantic coerces afterwards, are compared as strings, so the decision is made on other values than the "
+                            f"instance holds", e.lineno)
+                else:
+                    ctx.ok("R04.6", f"{ci.module.relpath}:{v.node.lineno} {ci.name}.{v.name}", "before-mode validator makes no order comparison on raw items")
+        ctx.ok("R04.6", "soundevent.data", f"{n} before-mode validators scanned")
+
     def _canon(self, t):
         if not isinstance(t, tuple):
             return t
@@ -495,6 +537,7 @@ def run(ctx: Ctx):
     c = C04(ctx)
     c.check_bounds()
     c.check_validators()
+    c.check_raw_comparisons()
     c.check_bypass()
     # "identically through ... AOEF loading": the readers of the validated classes hand the document's values to the
     # validating constructor as they are (no repair, de-duplication, reordering or filtering in between): C01's field
